@@ -9,8 +9,10 @@ ID = "C12"
 RULE = ("part 'laws': links over all orientation pairs, distinct / self / hairpin, overlap '*' or a CIGAR over "
         "{M,I,D,P,=,X,H}, with tags: complement involution, reference/query length exchange, is_complement / "
         "is_eql / is_same / is_compatible symmetric and repeatable with the receiver textually unchanged, "
-        "complement text equal to the model's; part 'graph': a Gfa holding such links: adding the complement "
-        "changes nothing and raises nothing, adding a link that differs in exactly one of {segment, one "
+        "complement text equal to the model's; in half of the cases one operation of the CIGAR of the same Line object "
+        "is then edited in place (length and code; also the CIGAR of the line complement() returned) and all laws are "
+        "evaluated again for the edited link; part 'graph': a Gfa holding such links: adding the complement "
+        "(without ID, with the stored link's ID, or with an unused ID of its own) changes nothing and raises nothing, adding a link that differs in exactly one of {segment, one "
         "orientation, specified overlap} adds exactly one dovetail, paths traversing a link forwards and as "
         "complement, arriving before or after the link, resolve to the stored link with the direction flag the "
         "model computes. non-trivial = overlap has an I or D (complement != identity) or the link is a hairpin")
@@ -38,10 +40,40 @@ def canon_l(text):
 
 def prop_laws(case):
     p, tags = case["link"], case["tags"]
-    text = link_text(p, tags)
     vlevel = case.get("vlevel", 1)
+    l = None
+    labels = _laws(case, p, tags, vlevel, None)
+    ed = case.get("edit")
+    if ed and p[4] != "*":
+        # the CIGAR of the same Line object is edited in place (tutorial: "Reading and editing
+        # CIGARs"); every law must hold for the edited link as well
+        ops = [list(x) for x in G.canon_cigar(p[4])]
+        i = ed[0] % len(ops)
+        ops[i] = [ed[1], ed[2]]
+        p2 = list(p[:4]) + ["".join("%d%s" % (n, c) for n, c in ops)]
+        try:
+            l = gfapy.Line(link_text(p, tags), version="gfa1", vlevel=vlevel)
+            c0 = l.complement()
+            l.complement()
+            l.overlap[i].length = ed[1]
+            l.overlap[i].code = ed[2]
+            if ed[3]:
+                # the line returned by complement() is edited too: it must be independent
+                c0.overlap[0].length = c0.overlap[0].length + 7
+        except Exception as e:
+            raise Violation("raised", "%s: %s while editing the CIGAR of %r" % (type(e).__name__, str(e)[:300], link_text(p, tags)), type(e).__name__)
+        _laws(case, p2, tags, vlevel, l)
+        labels["edited"] = True
+    return labels
+
+
+def _laws(case, p, tags, vlevel, l):
+    text = link_text(p, tags)
     try:
-        l = gfapy.Line(text, version="gfa1", vlevel=vlevel)
+        if l is None:
+            l = gfapy.Line(text, version="gfa1", vlevel=vlevel)
+        elif canon_l(str(l)) != canon_l(text):
+            raise Violation("edit-not-written", "after the in-place edit the link is written %r, expected %r" % (str(l), text))
         before = str(l)
         c = l.complement()
         cc = c.complement()
@@ -134,7 +166,10 @@ def prop_graph(case):
                 raise Violation("path-backref", "stored link does not back-reference path %s" % pn)
         before = O.observe(g)
         btxt = str(g)
-        g.add_line(link_text(mc, case.get("ctags", [])))
+        ctags = list(case.get("ctags", []))
+        if case.get("cid"):
+            ctags.append(["ID", "Z", case["cid"]])
+        g.add_line(link_text(mc, ctags))
         after = O.observe(g)
         if after != before or str(g) != btxt:
             raise Violation("add-complement", "adding the complement changed the Gfa:\n%s\n%s" % (O.obs_diff(before, after), str(g)))
@@ -192,8 +227,11 @@ def variants(r, p):
 def st_laws(draw):
     r = draw(st.randoms(use_true_random=False))
     p = gen_link(r)
+    edit = None
+    if gen.chance(r, 0.5):
+        edit = [r.randrange(6), r.randint(1, 9), gen.choice(r, "MIDP=XH"), gen.chance(r, 0.5)]
     return {"link": p, "tags": gen.gen_tags(r, "gfa1", "L", True, maxn=2), "variants": variants(r, p),
-            "vlevel": gen.choice(r, [0, 1, 1, 2, 3])}
+            "vlevel": gen.choice(r, [0, 1, 1, 2, 3]), "edit": edit}
 
 
 @st.composite
@@ -202,7 +240,12 @@ def st_graph(draw):
     p = gen_link(r)
     toks = ["S", "L"] + (["PF"] if gen.chance(r, 0.7) else []) + (["PR"] if gen.chance(r, 0.7) else [])
     r.shuffle(toks)
-    return {"link": p, "tags": gen.gen_tags(r, "gfa1", "L", True, maxn=2),
+    tags = gen.gen_tags(r, "gfa1", "L", True, maxn=2)
+    if gen.chance(r, 0.4):
+        tags.append(["ID", "Z", "lk1"])
+    # the complement comes without ID, with the stored link's ID or with an ID of its own
+    cid = gen.choice(r, [None, None, "lk1" if any(t[0] == "ID" for t in tags) else "lk2", "lk2"])
+    return {"link": p, "tags": tags, "cid": cid,
             "ctags": gen.gen_tags(r, "gfa1", "L", True, maxn=1), "variants": variants(r, p),
             "order": toks, "vlevel": gen.choice(r, [0, 1, 1, 2, 3])}
 
